@@ -239,6 +239,8 @@ func c20b(c *Ctx) {
 	checks := []chk{
 		{"checkLog", h.Calls(Callee{pkgSkylight, "", "checkLog"}), isStaging("Staging"), true},
 		{"witness check", h.Calls(Callee{pkgSkylight, "witnessHealth", "check"}), isStaging("staging"), false},
+		{"witness verifier keys", h.Calls(Callee{pkgSkylight, "witnessHealth", "loadVerifiers"}), isStaging("staging"), false},
+		{"witness log enumeration", h.Calls(Callee{pkgSkylight, "witnessHealth", "hashes"}), isStaging("staging"), false},
 	}
 	for _, ck := range checks {
 		if len(ck.sites) != 1 {
@@ -267,10 +269,32 @@ func c20b(c *Ctx) {
 			}
 			return true
 		})
+		// loops nested in the check's loop that do not contain the call: their stores belong to other checks
+		var inner []ast.Stmt
+		if loop != nil {
+			ast.Inspect(loop, func(n ast.Node) bool {
+				switch x := n.(type) {
+				case *ast.RangeStmt, *ast.ForStmt:
+					st := x.(ast.Stmt)
+					if st != loop && !(st.Pos() <= s.Call.Pos() && s.Call.End() <= st.End()) {
+						inner = append(inner, st)
+					}
+				}
+				return true
+			})
+		}
 		var own []Site
 		for _, fs := range fails {
 			if loop != nil && loop.Pos() <= fs.X.Pos() && fs.X.End() <= loop.End() {
-				own = append(own, fs)
+				nested := false
+				for _, in := range inner {
+					if in.Pos() <= fs.X.Pos() && fs.X.End() <= in.End() {
+						nested = true
+					}
+				}
+				if !nested {
+					own = append(own, fs)
+				}
 			}
 		}
 		if loop == nil || len(own) == 0 {
@@ -315,7 +339,9 @@ func c20b(c *Ctx) {
 					return Unknown
 				}
 				// stop at the next occurrence of the same call (next iteration) so that other iterations do not count
-				stop := func(p Point, _ ast.Node) bool { return p == s.P }
+				stop := func(p Point, n ast.Node) bool {
+					return p == s.P || (n != nil && assignsTo(info, n, errObj))
+				}
 				pt, _ := g.Reach(s.After(), Cut{Edges: g.FeasibleCut(env), Stop: stop, NoEnter: func(b *cfg.Block) bool { return b == head }}, atAnySite(own))
 				want := errClass == "other" && !staging
 				inst := fmt.Sprintf("/health %s [err=%s staging=%v]", ck.name, errClass, staging)
